@@ -559,11 +559,16 @@ var _ uuid.UUID
 //@ ensures [C20 unknown-node-is-an-error] old(connBook(this.clusterConn)) && !old(has(this.searchClients, nodeId)) && !old(has(this.clusterConn.conns, nodeId)) && !has(this.clusterConn.addresses, nodeId) ==> !isnil(ret1)
 //@ modifies map(this.clusterConn.conns)
 
+// "hosted on node n" is what the catalogue record says now: n is in the partition's node list
+//@ spec onNode(p *partition, n uint64) bool = exists i int :: 0 <= i && i < len(p.meta.NodeIds) && p.meta.NodeIds[i] == n
 //@ func (*storage.partition).isOnNode
 //@ props C17 C11 C09
-//@ assume
 //@ pure
+//@ requires [meta] this != nil && this.meta != nil
+//@ ensures [C17 hosted-iff-listed] ret == onNode(this, nodeId)
 //@ modifies nothing
+//@ loop 1
+//@ invariant [not-yet] forall i int :: 0 <= i && i <= rangeindex ==> this.meta.NodeIds[i] != nodeId
 
 //@ func math/rand.Intn
 //@ props C12 C09 C11 C17
@@ -635,6 +640,17 @@ var _ uuid.UUID
 //@ end
 //@ at recv local:errorCh
 //@ set gotErr = ite(isnil($recv), gotErr, 1)
+//@ end
+// local iff hosted here (decided from the catalogue record at the time of the call, not from anything kept aside): a partition
+// is counted from the local index only if this node is in its node list, and handed to a remote worker only if it is not
+//@ at call partition).len
+//@ requires [C17 counted-locally-only-if-hosted-here] onNode($arg0, this.clusterConn.id)
+//@ end
+//@ at call partition).bytesSize
+//@ requires [C17 counted-locally-only-if-hosted-here] onNode($arg0, this.clusterConn.id)
+//@ end
+//@ at go (*storage.Dataset).SizeInfo$1
+//@ requires [C17 asked-remotely-only-if-not-hosted-here] !onNode(partition, this.clusterConn.id)
 //@ end
 //@ requires [wf] wfDataset(this)
 //@ requires [ctx] !isnil(ctx)
@@ -1683,13 +1699,36 @@ var _ uuid.UUID
 //@ invariant [built-prefix] forall j int :: 0 <= j && j < i ==> wfPartition(d, d.partitions[j]) && fresh(d.partitions[j]) && allocated(d.partitions[j])
 //@ invariant [map-built] forall k uuid.UUID :: has(d.partitionsMap, k) ==> wfPartition(d, d.partitionsMap[k]) && fresh(d.partitionsMap[k]) && allocated(d.partitionsMap[k])
 
+// C14 ("after a deletion is acknowledged ... its partitions stop serving"): the allocator's registry. watch registers EVERY
+// partition it is given (whoever hosts it now - a node can become a replica later) and announces a newly registered one to the
+// allocator loop; unwatch removes the entry and announces exactly the partition that was registered (the loop unloads it)
 //@ func (*storage.Allocator).watch
 //@ props C14
-//@ assume
+//@ safety UNCLAIMED
+//@ ghost announced int = 0
+//@ at send *
+//@ requires [C14 announces-the-watched-partition] istype($val, *watchPartitionUpdate) && asptr($val.pay, watchPartitionUpdate).partition == partition && has(this.partitions, partition.id)
+//@ set announced = announced + 1
+//@ end
+//@ requires [wf] this.partitions != nil && partition != nil
+//@ ensures [C14 watched] has(this.partitions, partition.id)
+//@ ensures [C14 newly-watched-is-registered-and-announced] !old(has(this.partitions, partition.id)) ==> this.partitions[partition.id] == partition && announced == 1
+//@ ensures [C14 already-watched-is-left-alone] old(has(this.partitions, partition.id)) ==> this.partitions[partition.id] == old(this.partitions[partition.id]) && announced == 0
+//@ ensures [others] forall j uuid.UUID :: j != partition.id ==> has(this.partitions, j) == old(has(this.partitions, j)) && this.partitions[j] == old(this.partitions[j])
 //@ modifies map(this.partitions)
 //@ func (*storage.Allocator).unwatch
 //@ props C14
-//@ assume
+//@ safety UNCLAIMED
+//@ ghost announced int = 0
+//@ at send *
+//@ requires [C14 announces-the-partition-that-was-registered] istype($val, *unwatchPartitionUpdate) && asptr($val.pay, unwatchPartitionUpdate).partition == old(this.partitions[id]) && !has(this.partitions, id)
+//@ set announced = announced + 1
+//@ end
+//@ requires [wf] this.partitions != nil
+//@ ensures [C14 unwatched] !has(this.partitions, id)
+//@ ensures [C14 registered-partition-is-announced-for-unloading] old(has(this.partitions, id)) ==> announced == 1
+//@ ensures [C14 unknown-id-announces-nothing] !old(has(this.partitions, id)) ==> announced == 0
+//@ ensures [others] forall j uuid.UUID :: j != id ==> has(this.partitions, j) == old(has(this.partitions, j)) && this.partitions[j] == old(this.partitions[j])
 //@ modifies map(this.partitions)
 
 //@ func (*storage.DatasetManager).createDataset
